@@ -226,3 +226,13 @@ def xor_callers(cx):
 def run(cx):
     _run0(cx)
     xor_callers(cx)
+
+
+_run_pow = run
+
+
+def run(cx):
+    from .C09 import pow_exponent_range
+    _run_pow(cx)
+    # the reachable assertion `e <= N-1` in Fp12::pow: the only attacker-controlled exponent (h in verify_sign) is range-checked
+    pow_exponent_range(cx, 'L-POW-PRE', 'L-POW-PRE')
